@@ -132,3 +132,9 @@ def run(prop="C04", tier="quick"):
     res["notes"].append("fixtures: 1 positive fired, 1 negative silent; %d reviewed exception(s)" % len(exceptions))
     res["exhaustive"] = True
     return res
+
+
+def run_c03(prop="C03", tier="quick"):
+    """C03 view: mpz_add / mpz_sub and friends 'return the exact signed result' including equal-magnitude cancellation: a subtraction can
+    cancel any number of high limbs, so the size must be trimmed by a full MPN_NORMALIZE, not by the one-limb step."""
+    return scope_to_anchors(run(prop, tier), prop)
